@@ -2,6 +2,7 @@ import TcheranVerif.Model.Eval
 import TcheranVerif.Model.Rules
 import TcheranVerif.Proofs.EvalBound
 import TcheranVerif.Proofs.Mirror
+import TcheranVerif.Proofs.MenCount
 import TcheranVerif.Props.C07
 /-!
 # C16 — evaluation: proper blend, packed representation, table-level colour symmetry
@@ -31,6 +32,9 @@ import TcheranVerif.Props.C07
   iterated in flipped order), the king-safety lookup needs the one-king hypothesis, the blend is odd because
   truncating division is. `mirror_involutive`, `mirror_consistent`. The correspondence stream checks that
   the second position of each pair the implementation is run on is exactly `Game.mirror` of the first.
+* **`eval_along_game`** — both at every position of every game of legal moves from a legal start
+  (`Proofs/MenCount.lean`: a legal move never increases the number of men of a colour; with C02 `game_refines`
+  and C03/C15 `game_sync`).
 -/
 namespace Tcheran.Props.C16
 open Tcheran Tcheran.Eval
@@ -141,6 +145,16 @@ theorem eval_mirror_tables (g : Game) (hc : Board.Consistent g.board)
     Eval.eval (Game.mirror theCfg g) = Eval.eval g :=
   eval_mirror_counts sliderTables g hc hinc hKw hKb hW hB
 
+/-- **eval_along_game**: at every position of every game of legal moves from a legal start — promotions
+included: a legal move never increases the number of men of a colour (`men_apply`) — `make_move` answers, the
+accumulators stay in step (C15), and the evaluation is total, strictly inside the non-mate range and equal to
+the evaluation of the mirrored position -/
+theorem eval_along_game (g0 : Game) (ms : List Move) (pos' : Rules.Pos) (hs : Sync theCfg g0)
+    (hl : Rules.legalPos (Rules.ofGame g0) = true) (hp : LegalPath (Rules.ofGame g0) ms pos') :
+    ∃ g', makeMoves theCfg g0 ms = some g' ∧ Rules.ofGame g' = pos' ∧
+      ∃ v, Eval.eval g' = some v ∧ -31900 < v ∧ v < 31900 ∧ Eval.eval (Game.mirror theCfg g') = some v :=
+  Tcheran.eval_along_game sliderTables g0 ms pos' hs hl hp
+
 /-- the transformation is an involution on boards and keeps the three views in agreement, so the mirrored
 position satisfies the hypotheses of every theorem stated for consistent boards -/
 theorem mirror_involutive (b : Board) : b.mirror.mirror = b := mirror_mirror b
@@ -195,3 +209,4 @@ end Tcheran.Props.C16
 #print axioms Tcheran.Props.C16.demo_legal
 #print axioms Tcheran.Props.C16.demo_mirror_legal
 #print axioms Tcheran.Props.C16.demo_eval_mirror
+#print axioms Tcheran.Props.C16.eval_along_game
